@@ -47,6 +47,32 @@ for f in sorted(glob.glob(os.path.join(out, "*sbeppc#*.gcov"))):
     rows.append((name, ex, ex + nx, miss))
     tot_e += ex
     tot_x += ex + nx
+# branch outcomes never observed (exception edges excluded), merged over instantiations: a condition whose one outcome no
+# workload produced is a candidate hole even when both of its lines were executed
+with open(os.path.join(out, "untaken_branches.txt"), "w") as fh:
+    for f in sorted(glob.glob(os.path.join(out, "*sbeppc#*.gcov"))):
+        name = os.path.basename(f).split("#sbeppc#")[-1].replace(".gcov", "")
+        cur, txt, br = None, {}, {}
+        for ln in open(f, errors="replace"):
+            m = re.match(r"\s*([^:]+):\s*(\d+):(.*)$", ln)
+            if m:
+                cur = int(m.group(2))
+                txt[cur] = m.group(3).rstrip()
+                idx = 0
+                continue
+            m = re.match(r"branch\s+(\d+) (taken (\d+)|never executed)(.*)$", ln)
+            if m and cur:
+                if "(throw)" in m.group(4):
+                    continue
+                k = (cur, int(m.group(1)))
+                br[k] = max(br.get(k, 0), int(m.group(3) or 0))
+        lines = {}
+        for (l, b), n in br.items():
+            lines.setdefault(l, []).append((b, n))
+        miss = [(l, bs) for l, bs in sorted(lines.items()) if any(n == 0 for _, n in bs) and any(n > 0 for _, n in bs)]
+        fh.write("== %s %d lines with an outcome never taken\n" % (name, len(miss)))
+        for l, bs in miss:
+            fh.write("%6d: %s   [%s]\n" % (l, txt.get(l, "")[:150], " ".join("%d:%d" % x for x in sorted(bs))))
 with open(os.path.join(out, "unexecuted.txt"), "w") as fh:
     for name, e, t, miss in rows:
         fh.write("== %s %d/%d\n" % (name, e, t))
